@@ -89,7 +89,11 @@ class Sanitizer:
             key = (k, repr(n.val))
             if key not in self.names:
                 i = sum(1 for kk in self.names if isinstance(kk, tuple) and kk[0] == k)
-                self.names[key] = _variant(k, dflt, i)
+                v = _variant(k, dflt, i)
+                # keep the sign of an ill-formed numeric spelling (obligations about a leading sign depend on it)
+                if k in ("Integer", "Float", "Duration") and isinstance(n.val, str) and n.val[:1] in "+-" and n.val[:1]:
+                    v = n.val[0] + v
+                self.names[key] = v
             return type(n)(self.names[key])
         if k in ("String", "Geography"):
             return type(n)(n.val if isinstance(n.val, str) else "s")
